@@ -3,6 +3,7 @@ import BigtoolsModel.CheckedFile
 import BigtoolsModel.CheckedBed
 import BigtoolsModel.FileOf
 import BigtoolsModel.FileOfBed
+import BigtoolsModel.WriterSections
 /-! # C09 — every written file is a well-formed BBI file for an independent decoder
 
 Property theorems (statements copied from the lemma modules, proofs by those lemmas). -/
@@ -55,3 +56,18 @@ theorem C09_model_bed_writer_output_is_valid (o : BOpts) (cs : List ChromBedIn) 
   bedFileOf_valid o cs h
 
 end BBI
+
+namespace BW
+
+/-- byte-level writer model (compared byte for byte with the real files): every bigBed data block holds at most the
+    advertised `items_per_slot` entries … -/
+theorem C09_model_bed_blocks_hold_at_most_items_per_slot (ips chrom fuel : Nat) (items : List BedE) :
+    ∀ s ∈ cutBedSections ips chrom fuel items, ∃ blk : List BedE, blk.length ≤ ips ∧ s = encBedSection chrom blk :=
+  cutBedSections_block_sizes ips chrom fuel items
+
+/-- … and the blocks of a chromosome, concatenated, are the encoding of its entries in input order -/
+theorem C09_model_bed_blocks_carry_the_entry_stream (ips chrom : Nat) (hips : 0 < ips) (items : List BedE) :
+    (cutBedSections ips chrom (items.length + 1) items).flatMap (·.bytes) = items.flatMap (encBedE chrom) :=
+  cutBedSections_bytes ips chrom hips _ items (by omega)
+
+end BW
